@@ -401,6 +401,18 @@ func c16ScenarioWatchdog(r *sim.Run) {
 		}))
 	}
 
+	// the server-side application may be writing too (data towards the client, one message every
+	// interval/2 for the whole run): what the local side sends says nothing about the peer's health
+	if tp.Bool("server-writes") {
+		r.Probe("watchdog/server-side-writes")
+		for k := 0; k < 60; k++ {
+			k := k
+			timers = append(timers, time.AfterFunc(time.Duration(k)*is/2+733*time.Microsecond-time.Since(start), func() {
+				connS.Write([]byte{byte(k)})
+			}))
+		}
+	}
+
 	closedEarly := func(where string) bool {
 		if c, at := sS.isClosed(); c {
 			lmu.Lock()
